@@ -487,6 +487,23 @@ pub fn reestablish<B: AsRef<[u32]> + AsMut<[u32]>>(dt: &mut DrawTarget<B>, shado
     dt.set_transform(&mat(&shadow.ctm));
 }
 
+/// The drawing call `op` executed on a fresh target that holds `pixels` and the clip stack and
+/// transform of `shadow` (no layers), with one more clip on top: a clip *path* that covers the
+/// whole surface (a pixel-aligned rectangle reaching beyond it). Returns the resulting pixels.
+pub fn draw_under_covering_clip_path(w: i32, h: i32, pixels: &[u32], shadow: &Shadow, op: &Op) -> Vec<u32> {
+    let mut dt = DrawTarget::new(w, h);
+    dt.get_data_mut().copy_from_slice(pixels);
+    reestablish(&mut dt, shadow);
+    dt.set_transform(&Transform::identity());
+    let mut pb = PathBuilder::new();
+    pb.rect(-2., -2., (w + 4) as f32, (h + 4) as f32);
+    dt.push_clip(&pb.finish());
+    dt.set_transform(&mat(&shadow.ctm));
+    let mut sh = shadow.clone();
+    apply_simple(&mut dt, &mut sh, op);
+    dt.into_vec()
+}
+
 /// Every op that involves exactly one target and no environment.
 pub fn apply_simple<B: AsRef<[u32]> + AsMut<[u32]>>(dt: &mut DrawTarget<B>, shadow: &mut Shadow, op: &Op) {
     match op {
